@@ -90,6 +90,48 @@ def decode_cases(src):
     return out
 
 
+def shape(c):
+    """class of a case by the shape of its input (no knowledge of results): the quick sample takes cases from every class in turn"""
+    i = c["in"]
+    k = c["comp"]
+    if k == "cr":
+        return (len(i["syms"]), len(i["reds"]), i["sec"] - 16 * len(i["reds"]) if i["sec"] >= 0 else -1, i["symtab"])
+    if k == "ls":
+        return (i["have"], len(i["consts"]), len(i["script"]))
+    if k == "do":
+        return (json.dumps(i["dist"]), i["distrc"], i["buildrc"], i["work"], len(i["files"]))
+    if k == "oe":
+        return (len(i["env"]), len(i["ovr"]))
+    if k == "rt":
+        return (len(i["files"]), i["failat"] > 0)
+    if k == "wo":
+        return (len(i["reg"]),)
+    if k == "ve":
+        return (i["tool"], len(i["banner"]) // 6)
+    if k == "mm":
+        return (len(i["v"]),)
+    return ()
+
+
+def stratified(rng, cases, n):
+    classes = {}
+    for c in cases:
+        classes.setdefault(shape(c), []).append(c)
+    keys = sorted(classes, key=lambda k: json.dumps(k))
+    for k in keys:
+        rng.shuffle(classes[k])
+    rng.shuffle(keys)
+    out = []
+    while len(out) < n and keys:
+        for k in list(keys):
+            if len(out) >= n:
+                break
+            out.append(classes[k].pop())
+            if not classes[k]:
+                keys.remove(k)
+    return out
+
+
 def run_harness(ctx, cases, nrand, real, timeout):
     """legs G (cases) and T (seeded random + the repository's own inputs) on both packages, concurrently"""
     cp = os.path.join(ctx.work, "xkb_cases_%d.ndjson" % len(os.listdir(ctx.work)))
@@ -210,7 +252,7 @@ def run(ctx):
     for comp in sorted(by):
         v = by[comp]
         if q and len(v) > SAMPLE_QUICK.get(comp, 50):
-            v = rng.sample(v, SAMPLE_QUICK[comp])
+            v = stratified(rng, v, SAMPLE_QUICK[comp])
         gcases += v
     for c in gcases:
         c["leg"] = "G"
